@@ -35,8 +35,10 @@ type runSpec struct {
 	ID     string `json:"id"`
 	Sig    bool   `json:"sig"`    // pass a signalsToStep channel and send one signal
 	BadSig bool   `json:"badsig"` // the signal's payload is rejected by the handler's schema
-	Beh    string `json:"beh"`    // ok | err | panic
+	Beh    string `json:"beh"`    // ok | err | panic | nostep (Execute with a blank step ID)
 	Emit   bool   `json:"emit"`   // pass a signalsFromStep channel
+	As     string `json:"as"`     // run ID to use instead of ID (a run ID used again, or - with Dup - while it is in flight)
+	Dup    bool   `json:"dup"`    // As names a run ID that another caller of the same phase uses at the same time
 }
 
 type action struct {
@@ -158,6 +160,7 @@ type world struct {
 	spawned    map[string]bool
 	stepGate   func(run string)
 	plug       *schema.CallableSchema
+	dupRet     map[string]chan struct{} // run ID used by two callers -> closed when the first of them has returned
 }
 
 func prop(t schema.Type) *schema.PropertySchema {
@@ -376,6 +379,9 @@ func (w *world) spawnCaller(id string) {
 			fromW = from
 		}
 		stepID := "step"
+		if rs.Beh == "nostep" {
+			stepID = "" // the server answers with a step-fatal error that carries no run ID
+		}
 		var payload any = map[string]any{"name": id, "beh": rs.Beh}
 		var want *echoExpect
 		if rs.Echo > 0 {
@@ -385,11 +391,31 @@ func (w *world) spawnCaller(id string) {
 			x := inProcess(w.plug, id+"-inprocess", payload)
 			want = &x
 		}
-		r := w.cli.Execute(schema.Input{RunID: id, ID: stepID, InputData: payload}, toR, fromW)
+		runID := id
+		if rs.As != "" {
+			runID = rs.As
+			if rs.Echo == 0 {
+				payload = map[string]any{"name": runID, "beh": rs.Beh}
+			}
+		}
+		r := w.cli.Execute(schema.Input{RunID: runID, ID: stepID, InputData: payload}, toR, fromW)
 		w.mu.Lock()
 		defer w.mu.Unlock()
+		if ch, ok := w.dupRet[runID]; ok {
+			// one of the two callers of this run ID is back: the step may finish, signal channels are closed
+			select {
+			case <-ch:
+			default:
+				close(ch)
+			}
+			go w.closeSignal(id)
+		}
 		e := w.res[id]
 		e.Returns++
+		if r.Error != nil && strings.Contains(r.Error.Error(), "duplicate run ID") {
+			e.St, e.Err = "dup", r.Error.Error()
+			return
+		}
 		if want != nil {
 			switch {
 			case want.Err != "" && r.Error == nil:
@@ -440,12 +466,16 @@ func (w *world) sendSignal(id string) {
 		return
 	}
 	defer close(done)
-	var data any = map[string]any{"name": id}
+	runID := id
+	if rs.As != "" {
+		runID = rs.As
+	}
+	var data any = map[string]any{"name": runID}
 	if rs.BadSig {
 		data = map[string]any{"bogus": 1}
 	}
 	select {
-	case ch <- schema.Input{RunID: id, ID: "sig", InputData: data}:
+	case ch <- schema.Input{RunID: runID, ID: "sig", InputData: data}:
 	case <-stop:
 	}
 }
@@ -760,6 +790,22 @@ func runScenario(sc scenario) (res *result) {
 		}
 		w.finish(res, wantClose)
 	case "delay", "free":
+		for _, r := range sc.Runs {
+			if r.As != "" && r.Dup {
+				if w.dupRet == nil {
+					w.dupRet = map[string]chan struct{}{}
+				}
+				w.dupRet[r.As] = make(chan struct{})
+			}
+		}
+		if w.dupRet != nil {
+			// the step of a run ID used by two callers runs until one of them (the one refused as a duplicate) is back
+			w.stepGate = func(run string) {
+				if ch, ok := w.dupRet[run]; ok {
+					<-ch
+				}
+			}
+		}
 		w.s.Reset()
 		if sc.Mode == "delay" {
 			w.s.SetDelay(sc.DelayKey, sc.DelayNth)
